@@ -12,7 +12,7 @@ RULE = ('cells: all cells of levels 0..3 (quick) / 0..5 (thorough); sampled cell
         'cell: area of the ring in the Lambert azimuthal equal-area plane at its centroid (vertices mapped to the authalic sphere by the '
         'closed form, not the library series) at s, 2s, 4s, ... segments with the envelope rule E = max(d_k, d_(k-1)/4, d_(k-2)/16): held if '
         '|a/a0 - 1| + 4E <= tol, violated only if |a/a0 - 1| > tol + 4E, else refine up to s=2048 (inconclusive beyond); a0 = 4 pi / N(r), '
-        'tol(r) = 1e-6 + 5e-14 rad / w(r) (vertex noise allowance); cell_area(r)*get_num_cells(r) cross-checked. distinct = distinct ids; non-trivial = r>=1')
+        'tol(r) = 1e-6 + 5e-14 rad / w(r) (vertex noise allowance); for r>=8 every ring vertex added by a doubling must lie within the chord sag of a smooth edge (5x the measured maximum 1.4e-2 w / s^1.7), else the ring at that segment count is off the curve; cell_area(r)*get_num_cells(r) cross-checked. distinct = distinct ids; non-trivial = r>=1')
 ASSUMPTIONS = ['WGS84 authalic sphere', 'vertex noise of up to 5e-14 rad (0.3 um; measured 1e-15..1e-14) is part of the numerical accuracy of the boundary (tol grows to 3e-5 at r=29, stays 1.0e-6 below r=20)']
 R_AUTH = 6371007.2
 NOISE_RAD = 5e-14  # absolute vertex noise allowance (rad); measured: area error x width is constant ~1e-15..1e-14 rad across levels
@@ -33,9 +33,31 @@ def eval_cell(a5, geo, c, r, cls, ctx):
     tol = 1e-6 + NOISE_RAD / geo.width(r)
     s0 = 2 if r >= 8 else (4 if r >= 4 else 16)
 
+    w = geo.width(r)
+    offcurve = []
+
     def f(s):
-        ring = a5.cell_to_boundary(c, {'segments': s, 'closed_ring': False})
-        return geo.laea_area([geo.ll_to_vec(lo, la) for lo, la in ring]) / a0
+        ring = a5.cell_to_boundary(c, {'segments': s, 'closed_ring': True})[:-1]
+        vs = [geo.ll_to_vec(lo, la) for lo, la in ring]
+        if r >= 8 and s >= 2 and s % 2 == 0:
+            # smoothness monitor: the vertices this ring adds to the ring at s/2 (odd positions; index 0 is a corner) must lie on
+            # the curve, i.e. within the chord sag of a smooth edge: measured maximum on the unchanged tree 1.4e-2 w / (s/2)^1.8
+            n = len(vs)
+            worst = 0.0
+            for i in range(1, n, 2):
+                a, b, x = vs[i - 1], vs[(i + 1) % n], vs[i]
+                d1, dx = geo.sub(b, a), geo.sub(x, a)
+                dd = geo.dot(d1, d1)
+                if dd == 0:
+                    continue
+                t = geo.dot(dx, d1) / dd
+                worst = max(worst, geo.norm(geo.sub(dx, geo.scale(d1, t))) / w)
+            h = s // 2
+            ctx.maxi('off_chord_w_at_%d_segments' % h if h <= 8 else 'off_chord_w_beyond_8_segments', worst, case)
+            bound = 5 * 1.4e-2 / h ** 1.7 + 1e-4 + 10 * NOISE_RAD / w
+            if worst > bound:
+                offcurve.append((s, worst, bound))
+        return geo.laea_area(vs) / a0
     try:
         verdict, s, e, E = geo.decide_seq(f, s0, 2048, tol)
     except Exception as ex:
@@ -43,6 +65,9 @@ def eval_cell(a5, geo, c, r, cls, ctx):
         return
     band = 'lo' if r < 10 else ('mid' if r < 20 else 'hi')
     ctx.count('%s_%s_%s' % (cls, band, verdict))
+    if offcurve:
+        sg, wv, bd = offcurve[0]
+        ctx.fail('boundary_vertex_off_curve', case, segments=sg, off_chord_w=wv, bound_w=bd)
     if verdict == 'held':
         ctx.maxi('area_rel_err_held', abs(e), case)
         ctx.maxi('segments_needed', s, case)
